@@ -173,6 +173,8 @@ func (sc *SubCache[EntityT, ExcerptT, CacheT]) write() error {
 		return err
 	}
 
+	verifhook.Point("cache.write.encoded")
+
 	f, err := sc.repo.LocalStorage().Create(filepath.Join("cache", sc.namespace))
 	if err != nil {
 		return err
